@@ -354,6 +354,19 @@ func (x *Exec) onStack(st *State, fn *ssa.Function) bool {
 
 func (x *Exec) dispatch(st *State, fr *Frame, c *callCtx) {
 	fn := c.fn
+	// "site deepcall <callee> assert e": like "site call", but also for calls made by helpers that are executed
+	// in place (any depth); e is evaluated in the unit's own frame (typically "false": the unit, including
+	// what it inlines, never calls this)
+	if x.contract != nil && x.contract.Directives["site"] != nil && len(st.frames) > 0 && fn != nil {
+		x.curCallee = calleeName(fn)
+		x.deepSite = true
+		x.siteAsserts(st, st.frames[0], "deepcall", fn.Name(), nil)
+		x.deepSite = false
+		x.curCallee = ""
+		if st.dead {
+			return
+		}
+	}
 	if x.contract != nil && x.contract.Directives["site"] != nil && len(st.frames) > 0 && fr == st.frames[0] {
 		bind := map[string]TV{}
 		for i, p := range fn.Params {
@@ -412,6 +425,17 @@ func (x *Exec) dispatch(st *State, fr *Frame, c *callCtx) {
 		if x.pureFallback(st, fr, c) {
 			return
 		}
+		// "abstract-calls external": a function outside the repository that the engine has no model for is
+		// abstracted (arbitrary result, no effect on the verified state), at any inlining depth
+		if x.contract != nil {
+			for _, d := range x.contract.Directives["abstract-calls"] {
+				if strings.TrimSpace(d) == "external" {
+					x.notes["ABSTRACTED: external function "+c.name+" (arbitrary result, effects not modelled)"] = true
+					x.finish(st, fr, c, x.symbolicResult(st, c))
+					return
+				}
+			}
+		}
 		x.unsupported(st, "call to external function "+c.name)
 		return
 	}
@@ -457,6 +481,9 @@ func (x *Exec) abstractCallF(st *State, fr *Frame, c *callCtx, name string, sig 
 			d = strings.TrimSpace(strings.TrimPrefix(d, "force "))
 		}
 		if forcedOnly && !forced {
+			continue
+		}
+		if d == "external" {
 			continue
 		}
 		re, err := regexp.Compile(d)
